@@ -541,3 +541,31 @@ package core
 //@   loop 3 invariant forall j :: 0 <= j && j < len(result) ==> !isnil(fn(core.ForkId.matchPart, f, result[j].call).1)
 //@   loop 3 invariant forall k :: S <= k && k < S + i && !isnil(fn(core.ForkId.matchPart, f, upstream0[k].call).1) ==> cntB(T, A, O, k) < len(result) && result[cntB(T, A, O, k)] == upstream0[k]
 //@   loop 3 decreases len(upstream) - i
+
+// ---------------------------------------------------------------- C04 volatile data removal
+// fileArgs: output argument -> set of holders keeping its files alive (the nil holder stands
+// for the top-level pipeline or a retain declaration); filePostNodes is the inverse index.
+// Removing finished consumers never adds an argument, never touches the nil holder, drops
+// an argument only when its own holder set has become empty, and leaves the holder sets of
+// the surviving arguments as subsets of what they were.  Precondition (data-structure
+// invariant established where the maps are built): distinct arguments own distinct
+// holder sets.
+//@ func core.Fork.removeFilePostNodes property C04
+//@   requires self != nil
+//@   requires forall j :: 0 <= j && j < len(nodes) ==> !isnil(nodes[j])
+//@   requires @owned forall a string, b string :: a != b && has(self.fileArgs, a) && has(self.fileArgs, b) ==> self.fileArgs[a] != self.fileArgs[b]
+//@   requires @nonnil forall a string :: has(self.fileArgs, a) ==> self.fileArgs[a] != nil
+//@   ensures @noadd forall a string :: has(self.fileArgs, a) ==> old(has(self.fileArgs, a)) && self.fileArgs[a] == old(self.fileArgs[a])
+//@   ensures @keepnil forall a string, n core.Nodable :: isnil(n) && old(has(self.fileArgs, a)) && old(has(self.fileArgs[a], n)) ==> has(self.fileArgs, a) && has(self.fileArgs[a], n)
+//@   ensures @onlyempty forall a string, n core.Nodable :: old(has(self.fileArgs, a)) && !has(self.fileArgs, a) ==> !has(old(self.fileArgs[a]), n)
+//@   ensures @shrink forall a string, n core.Nodable :: has(self.fileArgs, a) && has(self.fileArgs[a], n) ==> old(has(self.fileArgs[a], n))
+//@   loop 1 invariant 0 <= iter && iter <= len(nodes)
+//@   loop 1 invariant forall a string :: has(self.fileArgs, a) ==> old(has(self.fileArgs, a)) && self.fileArgs[a] == old(self.fileArgs[a])
+//@   loop 1 invariant forall a string, n core.Nodable :: isnil(n) && old(has(self.fileArgs, a)) && old(has(self.fileArgs[a], n)) ==> has(self.fileArgs, a) && has(self.fileArgs[a], n)
+//@   loop 1 invariant forall a string, n core.Nodable :: old(has(self.fileArgs, a)) && !has(self.fileArgs, a) ==> !has(old(self.fileArgs[a]), n)
+//@   loop 1 invariant forall a string, n core.Nodable :: has(self.fileArgs, a) && has(self.fileArgs[a], n) ==> old(has(self.fileArgs[a], n))
+//@   loop 2 invariant forall a string :: has(self.fileArgs, a) ==> old(has(self.fileArgs, a)) && self.fileArgs[a] == old(self.fileArgs[a])
+//@   loop 2 invariant forall a string, n core.Nodable :: isnil(n) && old(has(self.fileArgs, a)) && old(has(self.fileArgs[a], n)) ==> has(self.fileArgs, a) && has(self.fileArgs[a], n)
+//@   loop 2 invariant forall a string, n core.Nodable :: old(has(self.fileArgs, a)) && !has(self.fileArgs, a) ==> !has(old(self.fileArgs[a]), n)
+//@   loop 2 invariant forall a string, n core.Nodable :: has(self.fileArgs, a) && has(self.fileArgs[a], n) ==> old(has(self.fileArgs[a], n))
+//@   loop 2 invariant !isnil(node)
